@@ -2,7 +2,7 @@
 From Coq Require Import List Arith ZArith Bool.
 Import ListNotations.
 From PF Require Import Arr Net SweepDown SweepUp Rank Stream StreamSpec StrahlerBound.
-From PF Require Import GenLoopsEq.
+From PF Require Import GenLoopsEq GenCountEq GenOrderEq.
 From PFG Require Import GenLoops.
 Local Open Scope Z_scope.
 
@@ -74,3 +74,18 @@ Proof. split; [apply check_topo_sound; vm_compute; reflexivity|vm_compute; refle
 Theorem gen_main_upstream_eq : forall ds uparea upa_min, gen_main_upstream ds uparea upa_min = main_upstream ds uparea upa_min.
 Proof. exact GenLoopsEq.gen_main_upstream_eq. Qed.
 Print Assumptions gen_main_upstream_eq.
+
+(* ... and so are streams.strahler_order (two arrays in the source, one array of pairs in the model), streams.stream_order
+   (classic order) and core.upstream_count (a counting loop in the source, "number of masked cells draining into the
+   cell" in the model; equal on every well-formed network) *)
+Theorem gen_strahler_order_eq : forall ds sq mask, gen_strahler_order ds sq mask = strahler_order ds sq mask.
+Proof. exact GenOrderEq.gen_strahler_order_eq. Qed.
+Print Assumptions gen_strahler_order_eq.
+
+Theorem gen_upstream_count_eq : forall ds mask, wf ds -> gen_upstream_count ds mask = upstream_count ds mask.
+Proof. exact GenCountEq.gen_upstream_count_eq. Qed.
+Print Assumptions gen_upstream_count_eq.
+
+Theorem gen_stream_order_eq : forall ds sq main mask, wf ds -> gen_stream_order ds sq main mask = stream_order ds sq main mask.
+Proof. exact GenOrderEq.gen_stream_order_eq. Qed.
+Print Assumptions gen_stream_order_eq.
